@@ -81,7 +81,9 @@ impl Prop for C18 {
     if rng.chance(1, 10) {
       req["explain"] = json!(true);
     }
-    json!({"corpus": corpus, "query": gen_query(rng), "filter": gen_filter(rng), "req": req})
+    let query = gen_query(rng);
+    settle_exec(&query, &mut req);
+    json!({"corpus": corpus, "query": query, "filter": gen_filter(rng), "req": req})
   }
 
   fn run_case(&self, drv: &mut Driver, case: &Value, s: &mut Summary) {
@@ -101,7 +103,8 @@ impl Prop for C18 {
     };
     let req = full_req(case);
     let sort = req["sort"].clone();
-    let full = match run(&built.reader, &ranking_req(case, &sort)) {
+    let rk = ranking_req(case, &sort);
+    let full = match run(&built.reader, &rk) {
       Ok(r) => r,
       Err(e) => {
         s.case(case, false);
@@ -177,7 +180,18 @@ impl Prop for C18 {
       };
       let group: Vec<&str> = full.hits.iter().filter(|x| gval.get(&x.doc_id).cloned().flatten().as_deref() == Some(g.as_str())).map(|x| x.doc_id.as_str()).collect();
       if group.first().copied() != Some(h.doc_id.as_str()) {
-        s.fail("collapse.rep-not-best", "the returned hit is not the best-ranked document of its group", case, json!({"group": g, "returned": h.doc_id, "best": group.first()}));
+        // classification: with a fetch depth covering everything (implementation only), is the
+        // representative of this group the best one?
+        let deep_rep: Option<String> = deep.as_ref().and_then(|d| d.hits.iter().find(|x| gval.get(&x.doc_id).cloned().flatten().as_deref() == Some(g.as_str()))).map(|x| x.doc_id.clone());
+        let obs = json!({"group": g, "returned": h.doc_id, "best": group.first(), "with_candidate_size_all": deep_rep, "segments": lay.nseg, "top_k": top_k});
+        if deep_rep.as_deref() == group.first().copied() && !fetched.contains(group[0]) {
+          s.fail("collapse.rep-beyond-fetched", "on the score fast path each segment ranks only its own max(limit,candidate_size)+1 best: the best document of a group is not fetched while a worse member from another segment is, and becomes the representative", case, obs);
+        } else {
+          s.fail("collapse.rep-not-best", "the returned hit is not the best-ranked document of its group", case, obs);
+        }
+        // inner hits relative to a wrong representative are not judged
+        last_pos = Some(p);
+        continue;
       }
       if let Some(lp) = last_pos {
         if p < lp {
@@ -230,7 +244,13 @@ impl Prop for C18 {
     }
 
     // ---------------- correspondence: mechanism model vs implementation ----------------
-    let scores: Vec<(String, f32)> = full.hits.iter().map(|h| (h.doc_id.clone(), h.score)).collect();
+    let scores = match raw_scores(&built.reader, &rk, &full) {
+      Ok(x) => x,
+      Err(e) => {
+        s.disagree("harness.raw_scores", case, json!(e), json!(null));
+        return;
+      }
+    };
     let m = drv.call("C18", model_req(&req, &lay, model_hits(&lay, &scores, None), None, false));
     if let Some(d) = compare(&m, &resp, &lay, total_is_exact(&req, &case["query"])) {
       s.disagree("post.search", case, json!({"diff": d, "hits": hit_ids(&resp.hits), "total_groups": resp.total_groups}), m);
